@@ -20,8 +20,16 @@ ABSENT_CODE = 999998
 EXT_NAMES = []          # filled by the driver: sorted list of external names used by the world
 
 
-class ScriptErr(Exception):
+class ScriptBase(BaseException):
+    """what the world's try blocks catch"""
+
+
+class ScriptErr(ScriptBase, Exception):
     pass
+
+
+class ScriptHard(ScriptBase):
+    """not an Exception subclass (like KeyboardInterrupt / GeneratorExit)"""
 
 
 class BadScript(RuntimeError):
@@ -68,6 +76,8 @@ def val():
 
 
 def exc():
+    if CUR[0][0] == "raiseb":
+        return ScriptHard(CUR[0][1])
     return ScriptErr(CUR[0][1])
 
 
@@ -133,7 +143,7 @@ def enc(v):
         return OTHER_CODE
     if isinstance(v, int) and 0 <= v < 100000:
         return v
-    if isinstance(v, ScriptErr):
+    if isinstance(v, ScriptBase):
         return EXC_BASE + v.args[0]
     name = getattr(v, "__name__", None)
     if name in EXT_NAMES:
